@@ -20,7 +20,7 @@ func init() { runners["C06"] = runC06 }
 const c06MaxCycles = 120
 
 func runC06(r *Result, thorough bool) {
-	r.Rule = "G2 runs of real cores (3-7 validators): adversarial prefix of 100-400 random exchanges with sync limits 1-5, failing pulls, a silent minority (< n/3) from a random point, submissions and a join request; then fair all-pairs cycles (every live validator pulls from every other); " +
+	r.Rule = "G2 runs of real cores (3-7 validators): adversarial prefix of 100-400 random exchanges with sync limits 1-5, failing pulls, a silent minority (< n/3) from a random point (in half of the runs preceded by a quiet period in which nodes become idle, and by a last act: the validator accepts a transaction, creates events, a live validator pulls them through a damaged answer, then silence), submissions and a join request; then fair all-pairs cycles (every live validator pulls from every other); " +
 		"oracle: within 120 cycles all live validators report busy() = false and have committed every transaction and membership request accepted by a live validator; the number of cycles needed is recorded. non-trivial: the prefix left at least one live node busy and the fair suffix ran"
 	rng := rand.New(rand.NewSource(r.Seed))
 	runs := 6
@@ -30,17 +30,39 @@ func runC06(r *Result, thorough bool) {
 	maxCycles := 0
 	for ri := 0; ri < runs; ri++ {
 		n := 3 + rng.Intn(5)
+		forceLastAct := ri%2 == 0
+		if forceLastAct && n < 4 {
+			n = 4 + rng.Intn(4)
+		}
 		cl := newCluster(rng, n, 10000, nil)
 		steps := 100 + rng.Intn(300)
 		nSilent := 0
 		if n >= 4 {
 			nSilent = rng.Intn((n-1)/3 + 1)
+			if forceLastAct && nSilent == 0 {
+				nSilent = 1
+			}
 		}
 		silent := map[int]bool{}
 		for len(silent) < nSilent {
 			silent[rng.Intn(n)] = true
 		}
 		silentFrom := rng.Intn(steps)
+		// half of the runs: a quiet period (no submissions, pulls go on, nodes become idle) before the
+		// minority goes silent, and a "last act" of each silent validator: it accepts a transaction,
+		// creates events, a live validator pulls them but the answer is damaged (one event missing in
+		// the middle), and then it is never heard of again
+		quiet, lastAct := 0, false
+		if forceLastAct || rng.Intn(4) == 0 {
+			quiet = 40 + rng.Intn(60)
+			lastAct = true
+			if silentFrom < quiet+20 {
+				silentFrom = quiet + 20
+				if silentFrom >= steps {
+					steps = silentFrom + 10
+				}
+			}
+		}
 		accepted := map[string]bool{} // tx content accepted by a validator that stays live
 		var joiner *member
 		joinHostLive := false
@@ -50,10 +72,68 @@ func runC06(r *Result, thorough bool) {
 			if a == b {
 				continue
 			}
+			if lastAct && s == silentFrom {
+				// the quiet period ends with everybody idle: fair cycles until nothing is pending, then
+				// two more (idle pulls that bring nothing new)
+				extra := 0
+				for cyc := 0; cyc < 40 && extra < 2; cyc++ {
+					for _, x := range cl.activeMembers() {
+						for _, y := range cl.activeMembers() {
+							if x != y {
+								cl.pull(x, y, -1)
+							}
+						}
+					}
+					cl.activateJoiners()
+					idle := true
+					for _, m := range cl.activeMembers() {
+						idle = idle && !m.core.Busy()
+					}
+					if idle {
+						extra++
+					}
+				}
+				if extra >= 2 {
+					r.Inc("quiet_periods_reaching_idle", 1)
+				}
+				for _, x := range cl.activeMembers() {
+					if !silent[x.idx] {
+						continue
+					}
+					var lv []*member
+					for _, m := range cl.activeMembers() {
+						if !silent[m.idx] {
+							lv = append(lv, m)
+						}
+					}
+					if len(lv) < 2 {
+						continue
+					}
+					tx := cl.newTx()
+					cl.submit(x, tx)
+					cl.pull(x, lv[rng.Intn(len(lv))], -1)
+					for k := rng.Intn(3); k >= 0; k-- {
+						cl.pull(x, lv[rng.Intn(len(lv))], -1)
+					}
+					victim := lv[rng.Intn(len(lv))]
+					known := victim.core.KnownEvents()
+					if diff, err := x.core.EventDiff(known); err == nil && len(diff) >= 3 {
+						wire, _ := x.core.ToWire(diff)
+						k := 1 + rng.Intn(len(wire)-2) // drop one event in the middle
+						damaged := append(append([]hg.WireEvent{}, wire[:k]...), wire[k+1:]...)
+						if victim.core.Sync(x.core.ID(), damaged) != nil {
+							r.Inc("last_acts_with_aborted_sync", 1)
+						}
+						// the transaction was accepted by a validator that then went silent: it need not
+						// commit, but the live validators must become idle again (C06: no stall)
+					}
+					r.Inc("last_acts", 1)
+				}
+			}
 			if s >= silentFrom && (silent[a.idx] || silent[b.idx]) {
 				continue
 			}
-			if rng.Intn(3) == 0 {
+			if rng.Intn(3) == 0 && !(quiet > 0 && s >= silentFrom-quiet && s < silentFrom) {
 				tx := cl.newTx()
 				cl.submit(a, tx)
 				if !silent[a.idx] {
